@@ -290,6 +290,12 @@ def normalize_url(
     if fix_common_mistakes and query:
         query = fix_common_query_mistakes(query)
 
+    # Normalizing AMP subdomains
+    # NOTE: done first: an "amp-" prefix hides the "xn--" header of its label,
+    # and "amp-www.x.com" must still lose its "www."
+    if normalize_amp and hostname and hostname.lower().startswith("amp-"):
+        hostname = hostname[4:]
+
     # Handling punycode
     if hostname:
         hostname = decode_punycode_hostname(hostname).lower()
@@ -372,11 +378,6 @@ def normalize_url(
     # Always dropping trailing slash with empty query & fragment
     if path == "/" and not fragment and not query:
         path = ""
-
-    # Normalizing AMP subdomains
-    # NOTE: done first so that "amp-www.x.com" still loses its "www."
-    if normalize_amp and hostname and hostname.startswith("amp-"):
-        hostname = hostname[4:]
 
     # Dropping irrelevant subdomains
     if hostname and strip_irrelevant_subdomains:
